@@ -356,8 +356,11 @@ class SqlImpl(TableImpl):
             if query.offset:
                 sel = sel.offset(query.offset)
 
-        if query.order_by:
-            sel = sel.order_by(*dedup_order_by(cls.compile_order(ord, sqa_expr) for ord in query.order_by))
+        # Constant sort keys do not influence the order; moreover, an integer literal in
+        # ORDER BY would be interpreted as the position of a result column.
+        order_by = [ord for ord in query.order_by if not types.is_const(ord.order_by.dtype())]
+        if order_by:
+            sel = sel.order_by(*dedup_order_by(cls.compile_order(ord, sqa_expr) for ord in order_by))
 
         sel = sel.with_only_columns(*(sqa_expr[uid] for uid in query.select))
 
